@@ -130,6 +130,10 @@ PROPS["C03"] = {
         "known classes K1-K3 (inherent ambiguities of the surface syntax, listed under C01) are filtered from the text stream; K1 reappears as C03_fold_K1_witness",
     ],
 }
+PROPS["C03"]["props"] = PROPS["C03"]["props"] + ["Props/C03c.v"]   # value level: sentences and tasks, ASCII / LaTeX
+PROPS["C03"]["assumptions"] = PROPS["C03"]["assumptions"] + [
+    "VALUE level (Props/C03c.v), ASCII and LaTeX: for every well-formed value the lexical parser reads the enum formatter's text (and every text with the same whitespace-free form) as lex_of_narsese v and folding returns v -- unconditional (oracle hypotheses only); with the enum side `parse_narsese (fmt_narsese v) = POk v` (C01 for whole values) as the explicit premise Henum both pipelines return v (C03_value_ascii_latex); without Henum both pipelines return v for any writing of the term (re-spaced, derived copulas) under the decidable sentence-level back-off condition sent_unamb (C03c_agree_value_tree_ascii_latex). Han: the value-level table conditions fail (K2, K5), nothing is claimed",
+]
 PROPS["C05F"] = {
     "props": ["Props/C05F.v"],
     "run": ["Run/FoldRun.v"],
